@@ -724,6 +724,111 @@ func c35ReqRT(a [][]byte) *Case {
 		}}
 }
 
+// c35Hold: the serialised form of a form-only (pre-parsed multipart) request — Request.Body(), valid until the request
+// is released — is HELD while other code serialises other messages (Body()/Write()/String() of a second pre-parsed
+// multipart request, String() of a response): the held bytes must not change and must parse back to the first form.
+func c35Hold(a [][]byte) *Case {
+	if len(a) < 2 {
+		return nil
+	}
+	c35TmpDir()
+	c35Clear()
+	users := string(a[0])
+	sep := -1
+	for i, x := range a[1:] {
+		if string(x) == "|" {
+			sep = i + 1
+			break
+		}
+	}
+	if sep < 0 {
+		return nil
+	}
+	forms := []*c35Form{c35FormFromArgs(a[1:sep]), c35FormFromArgs(a[sep+1:])}
+	reqs := make([]*fasthttp.Request, 2)
+	var rerr error
+	for i, f := range forms {
+		body := f.encode()
+		var in bytes.Buffer
+		fmt.Fprintf(&in, "POST /up%d HTTP/1.1\r\nHost: h\r\nContent-Type: multipart/form-data; boundary=%s\r\nContent-Length: %d\r\n\r\n", i, c35Boundary, len(body))
+		in.Write(body)
+		reqs[i] = &fasthttp.Request{}
+		if err := reqs[i].Read(bufio.NewReader(&in)); err != nil {
+			rerr = err
+		}
+	}
+	var resp fasthttp.Response
+	resp.SetBodyString(strings.Repeat("response body ", 40))
+	var verdict Verdict
+	impl := ""
+	if rerr == nil {
+		for round := 0; round < 3 && verdict.Kind == VOk; round++ {
+			for h := 0; h < 2 && verdict.Kind == VOk; h++ {
+				held := reqs[h].Body() // NOT copied: this is what a handler keeps
+				snap := append([]byte(nil), held...)
+				other := reqs[1-h]
+				for _, u := range users {
+					switch u {
+					case 'B':
+						_ = other.Body()
+					case 'S':
+						_ = other.String()
+					case 'R':
+						_ = resp.String()
+					case 'W':
+						var sink bytes.Buffer
+						bw := bufio.NewWriter(&sink)
+						other.Write(bw) //nolint:errcheck
+						bw.Flush()      //nolint:errcheck
+					case 'H':
+						_ = reqs[h].Header.String()
+					}
+				}
+				if !bytes.Equal(held, snap) {
+					verdict = Verdict{VSpec, "held-body-changed", fmt.Sprintf("Request.Body() of pre-parsed multipart request %d (%d bytes) changed while it was held and %q ran on other messages: now starts %q, was %q", h, len(snap), users, clip35(held), clip35(snap))}
+					break
+				}
+				back, err := multipart.NewReader(bytes.NewReader(held), c35Boundary).ReadForm(1 << 30)
+				if err != nil {
+					verdict = Verdict{VSpec, "held-body-differs", fmt.Sprintf("held Body() of request %d does not parse: %v", h, err)}
+					break
+				}
+				got := c35Render(back)
+				back.RemoveAll() //nolint:errcheck
+				if want := forms[h].render(); got != want {
+					verdict = Verdict{VSpec, "held-body-differs", fmt.Sprintf("held Body() of request %d parses to\n%s\nwant\n%s", h, got, want)}
+				}
+			}
+		}
+		impl = "ok"
+	}
+	for _, r := range reqs {
+		r.Reset()
+	}
+	left := c35List()
+	c35Clear()
+	return &Case{Impl: impl, Nontrivial: true, Tags: []string{"hold"},
+		Judge: func([]string) Verdict {
+			if rerr != nil {
+				return Verdict{VSpec, "reqrt-error", fmt.Sprintf("Request.Read: %v", rerr)}
+			}
+			if verdict.Kind != VOk {
+				return verdict
+			}
+			if len(left) > 0 {
+				return Verdict{VSpec, "tempfile-after-reset", fmt.Sprintf("files left after Request.Reset: %v", left)}
+			}
+			return Ok()
+		}}
+}
+
+func clip35(b []byte) []byte {
+	if len(b) > 60 {
+		return b[:60]
+	}
+	return b
+}
+
 var _ = textproto.MIMEHeader{}
 
 func init() {
@@ -734,7 +839,7 @@ func init() {
 			"truncated bodies (parse errors), complete forms whose announced epilogue never arrives (connection EOF or read timeout error during the drain), handler ops MultipartForm/MultipartFormWithLimit/RemoveMultipartFormFiles/ResetBody in any order, TimeoutError, Connection: close; " +
 			"MultipartFormWithLimit at its boundary on streamed bodies with file parts > 8 KiB: limit = body length - 1, form + short epilogue with limit = form length, limit = body length; " +
 			"roundtrip: forms (values incl. empty/UTF-8/CRLF, several values per key, files in memory and on disk) written by WriteMultipartForm with random boundaries and parsed back by mime/multipart and by Request.MultipartForm; " +
-			"reqrt: request read (pre-parsed) and re-written, parsed by net/http. non-trivial = at least one temp file really created / form with files; distinct = distinct input",
+			"reqrt: request read (pre-parsed) and re-written, parsed by net/http; hold: Body() of one pre-parsed multipart request held (not copied) while Body()/String()/Write() of a second one and a response's String() run, then compared byte for byte and parsed back. non-trivial = at least one temp file really created / form with files; distinct = distinct input",
 		Assumptions: []string{
 			"mime/multipart (ReadForm, Form.RemoveAll, Writer) is correct: third party, checked by the directory listings and parse-back comparisons on every generated input, not proved",
 			"whether a parse spilled to disk is observed (TMPDIR listing) and fed to the model as the event parameter; timed-out requests are excepted as the property states",
@@ -749,6 +854,8 @@ func init() {
 				return c35RoundTrip(a)
 			case "reqrt":
 				return c35ReqRT(a)
+			case "hold":
+				return c35Hold(a)
 			}
 			return nil
 		},
@@ -961,6 +1068,23 @@ func init() {
 					args = append(args, B("F"+[]string{"f", "f", "g"}[r.Intn(3)]), B([]string{"a.txt", "b b.bin", "ü.dat", "q\"uote"}[r.Intn(4)]), c35Pattern(sz, i+j))
 				}
 				emit("roundtrip", args...)
+			}
+			// two pre-parsed multipart requests: Body() of one held across Body()/String()/Write() of the other
+			for i := 0; i < n/4; i++ {
+				us := []string{"B", "S", "W", "R", "BS", "BSWRH", "SR", "WB"}[r.Intn(8)]
+				args := [][]byte{B(us)}
+				for f := 0; f < 2; f++ {
+					for j := r.Intn(3); j > 0; j-- {
+						args = append(args, B("V"+[]string{"k", "k2"}[r.Intn(2)]), B(fmt.Sprintf("form%d-%s", f, vals[r.Intn(4)])))
+					}
+					for j := 1 + r.Intn(2); j > 0; j-- {
+						args = append(args, B("F"+[]string{"f", "g"}[r.Intn(2)]), B(fmt.Sprintf("n%d.bin", f)), c35Pattern([]int{5, 300, 5000, 40000}[r.Intn(4)], i+j+7*f))
+					}
+					if f == 0 {
+						args = append(args, B("|"))
+					}
+				}
+				emit("hold", args...)
 			}
 			for i := 0; i < n/2; i++ {
 				var args [][]byte
